@@ -495,7 +495,20 @@ def _corrupt(pred, run, w, limit):
         st["chanLen"][0] = max(1, st["chanLen"][0])
         st["wwoken"][0] = False
     elif pred == "T_C08_NoLostIndex":
-        return None
+        # a worker index that is neither in the rotation nor reported nor on its way back
+        if not st["handles"] or not st["running"]:
+            return None
+        i = st["handles"][0]
+        st["handles"] = [h for h in st["handles"] if h != i]
+        st["avail"][i] = False
+        st["cmdq"] = [c for c in st["cmdq"] if c != i]
+        st["wq"] = [q for q in st["wq"] if q != ["WK", i]]
+    elif pred == "T_C05_WakesForEarliestDeadline":
+        k = _last_step(run, lambda r: r.get("do") == "Iter" and r.get("iterRan") and not r.get("advInIter") and r["st"]["running"] and r["st"].get("lstRemain"))
+        if k is None:
+            return None
+        run[k]["st"]["lstRemain"][0] = 100
+        run[k]["st"]["timeoutMs"] = 400
     else:
         return None
     return run[:k + 1]
